@@ -250,6 +250,8 @@ def build(spec, da=None, attrs=None):
     mode = hist.get("mode", "none")
     if not dims:
         mode = "none" if mode in ("slice", "relabel", "transposed", "fortran") else mode
+    if mode == "copyof" and vals.dtype not in (np.dtype(float), np.dtype(int), np.dtype(bool), np.dtype(object)):
+        mode = "warm"       # (the values setter widens to the default types: a narrow dtype would not survive it)
     if mode == "slice":
         front = [list(f) for f in hist["front"]]
         back = [list(b) for b in hist["back"]]
@@ -261,7 +263,10 @@ def build(spec, da=None, attrs=None):
         elif vals.dtype.kind == "b":
             pv = np.zeros(pshape, dtype=bool)
         else:
-            pv = (np.zeros(pshape, dtype=vals.dtype) - 777).astype(vals.dtype)
+            try:
+                pv = np.full(pshape, -777, dtype=vals.dtype)
+            except (OverflowError, ValueError):
+                pv = np.full(pshape, 77, dtype=vals.dtype)      # (narrow or unsigned integer types)
         sl = tuple(slice(len(f), len(f) + len(l)) for f, l in zip(front, labels))
         pv[sl] = vals
         parent = da.DimArray(pv, axes=[da.Axis(label_array(l), d) for l, d in zip(plabels, dims)])
